@@ -495,8 +495,8 @@ fn sched_scenarios(thorough: bool) -> Vec<(Scenario, Option<usize>)> {
         (Scenario { obstacle: 0, ..c.clone() }, None),
         // obstacle 4 blocks one arm branch of the tilted landing pose: strategies with real, differing outcomes
         (Scenario { obstacle: 4, ..c.clone() }, Some(1)),
-        // four strategies, preemption-bounded
-        (Scenario { obstacle: 0, land: 1, ..c.clone() }, Some(1)),
+        // four strategies, all succeeding: thread orders only in the quick tier (bound 0), bound 2 in the thorough one below
+        (Scenario { obstacle: 0, land: 1, ..c.clone() }, Some(if thorough { 1 } else { 0 })),
         // four strategies of which the two on the second arm branch fail mid-stroke: real, differing outcomes
         (Scenario { obstacle: 6, ..c.clone() }, Some(1)),
     ];
